@@ -20,9 +20,11 @@ mcVars == <<qVars, kind, prevU, asc, band, changes, fr, kept>>
 
 Inputs == (-SU)..(VMax + 2 * SU)
 Scales == (SUBSET (0..(PC - 1))) \ {{}}
+RuleDom == 0..VMax                    \* clamped inputs the memoised rule is needed for
+AllowSeqs == {<<k>> : k \in 0..PC}
 
 \* Rule for every scale and input, computed once
-RuleTab == [A \in Scales |-> [u \in 0..VMax |-> Rule(A, u)]]
+RuleTab == IF Emit THEN <<>> ELSE [A \in Scales |-> [u \in RuleDom |-> Rule(A, u)]]   \* (constants are evaluated eagerly)
 RuleMemo(A, u) == RuleTab[A][u]
 
 NearBoundary(u) == IF \E b \in 0..(Top + 1) : AbsQ(u - Volt(b)) < HystU
@@ -38,10 +40,10 @@ TConvert(u) ==
   /\ changes' = IF band' # -1 /\ band' = band THEN (IF changes + (IF last' # last THEN 1 ELSE 0) > 2 THEN 2 ELSE changes + (IF last' # last THEN 1 ELSE 0)) ELSE 0
   /\ kept' = Keeps(u)
   /\ fr' = (IF Keeps(u) THEN u ELSE Clamp(u)) - Volt(last')
-  /\ Lbl([op |-> "cv", u |-> u])
-TAllow(k)  == /\ Allow(<<k>>) /\ kind' = "al" /\ prevU' = -1000 /\ asc' = TRUE /\ band' = -1 /\ changes' = 0
+  /\ Lbl([op |-> "cv", u |-> u, k |-> Keeps(u)])
+TAllow(k)  == /\ Allow(k) /\ kind' = "al" /\ prevU' = -1000 /\ asc' = TRUE /\ band' = -1 /\ changes' = 0
               /\ UNCHANGED <<fr, kept>>
-              /\ Lbl([op |-> "al", ns |-> <<k>>])
+              /\ Lbl([op |-> "al", ns |-> k])
 TForbid(s) == /\ Forbid(s) /\ kind' = "fb" /\ prevU' = -1000 /\ asc' = TRUE /\ band' = -1 /\ changes' = 0
               /\ UNCHANGED <<fr, kept>>
               /\ Lbl([op |-> "fb", ns |-> s])
@@ -50,10 +52,24 @@ ForbidSeqs == {<<k>> : k \in 0..PC} \cup {<<j, k>> : j \in 0..(PC - 1), k \in 0.
               \cup {[i \in 1..PC |-> (i + k) % PC] : k \in 0..(PC - 1)}
 
 MCInit == QInit /\ kind = "new" /\ prevU = -1000 /\ asc = TRUE /\ band = -1 /\ changes = 0 /\ fr = 0 /\ kept = FALSE
+          /\ (Emit => PrintT(<<"INIT", ToJson(<<qVars, <<last, allowed>>>>)>>))
 MCNext == \/ \E u \in Inputs : TConvert(u)
-          \/ \E k \in 0..PC : TAllow(k)
+          \/ \E k \in AllowSeqs : TAllow(k)
           \/ \E s \in ForbidSeqs : TForbid(s)
 MCSpec == MCInit /\ [][MCNext]_mcVars
+
+\* ---- every-transition replay graph on the real Quantizer (Graph_Quantizer.cfg: PC = 12, MaxOct = 10,
+\* SU = 20, i.e. one unit = 1/240 V): scales reached by editing C, G, B and "all the others"; inputs two
+\* and more units away from every bucket border, window edge and nearest-note midpoint (all of which sit
+\* on even units), in the bottom octave and in the two top ones, plus one input below the range (an input above it is clamped
+\* onto 10 V exactly, the voltage of a note, where two notes of a scale without C tie)
+GNotes  == (0..12) \cup (107..120)
+GInputs == {u \in {SU * n + d : n \in GNotes, d \in {-3, -1, 1, 3, 9, 11}} : u < VMax} \cup {-SU}
+GOthers == <<1, 2, 3, 4, 5, 6, 8, 9, 10>>
+GAllowSeqs  == {<<0>>, <<7>>, <<11>>, <<12>>, GOthers}
+GForbidSeqs == {<<0>>, <<7>>, <<11>>, <<200>>, GOthers, <<0, 7>>, [i \in 1..12 |-> (i + 7) % 12]}
+GScales == {A \in (SUBSET (0..(PC - 1))) \ {{}} : (A \cap {1, 2, 3, 4, 5, 6, 8, 9}) \in {{}, {1, 2, 3, 4, 5, 6, 8, 9}}}
+GRuleDom == {Clamp(u) : u \in GInputs}
 
 TypeOK == allowed \in Scales /\ last \in 0..Top /\ hist \in BOOLEAN
 
@@ -77,15 +93,28 @@ Inv_C19_window == (kind = "cv" /\ kept) => (-HystU < fr /\ fr < SU + HystU)
 Inv_C19_chromatic == (kind = "cv" /\ ~kept /\ allowed = 0..(PC - 1) /\ prevU >= 0 /\ prevU < VMax) => (0 <= fr /\ fr < SU)
 
 \* ---- C08: theorems about the memoryless rule, for every scale and every input of the instance ----
-Thm_C08_mono == \A A \in Scales : \A u \in 0..(VMax - 1) : Rule(A, u) <= Rule(A, u + 1)
-Thm_C08_octave == \A A \in Scales : \A u \in Oct..(VMax - 2 * Oct) : Rule(A, u + Oct) = Rule(A, u) + PC
-Thm_C08_chromatic == \A u \in 0..VMax : Rule(0..(PC - 1), u) = u \div SU
-Thm_C08_allowed == \A A \in Scales : \A u \in 0..VMax : (Rule(A, u) % PC) \in A
+Thm_C08_mono == Emit \/ \A A \in Scales : \A u \in 0..(VMax - 1) : Rule(A, u) <= Rule(A, u + 1)
+Thm_C08_octave == Emit \/ \A A \in Scales : \A u \in Oct..(VMax - 2 * Oct) : Rule(A, u + Oct) = Rule(A, u) + PC
+Thm_C08_chromatic == Emit \/ \A u \in 0..VMax : Rule(0..(PC - 1), u) = u \div SU
+Thm_C08_allowed == Emit \/ \A A \in Scales : \A u \in 0..VMax : (Rule(A, u) % PC) \in A
 \* the set of inputs for which a note is admissible is an interval (so checking the two ends of a
 \* run of equal answers checks the whole run)
-Thm_C08_convex == \A A \in Scales : \A n \in 0..Top :
+Thm_C08_convex == Emit \/ \A A \in Scales : \A n \in 0..Top :
                     LET S == {u \in 0..VMax : Accept(A, u, n)}
                     IN S = {} \/ \A x \in (CHOOSE a \in S : \A b \in S : a <= b)..(CHOOSE a \in S : \A b \in S : a >= b) : x \in S
+\* the rule evaluated over the notes within an octave of the input only (what the replay graph uses at
+\* the real size): the same function, because every octave of a non-empty scale holds an allowed note
+RuleLocal(A, u) ==
+  LET c == u \div SU
+      W == {n \in (c - PC)..(c + PC) : n >= 0 /\ n <= Top /\ (n % PC) \in A}
+      B == {n \in W : Volt(n) <= u /\ u < Volt(n) + SU}
+      N == {n \in W : \A m \in W : AbsQ(Volt(n) - u) <= AbsQ(Volt(m) - u)}
+  IN Lowest(IF B # {} THEN B ELSE N)
+Thm_RuleLocal == Emit \/ \A A \in Scales : \A u \in 0..VMax : RuleLocal(A, u) = Rule(A, u)
+GRuleTab == [A \in GScales |-> [u \in GRuleDom |-> RuleLocal(A, u)]]
+GRuleMemo(A, u) == GRuleTab[A][u]
+(* every theorem here is trivially true in the replay-graph configuration (Emit), which only prints edges *)
+ASSUME Thm_RuleLocal
 ASSUME Thm_C08_mono
 ASSUME Thm_C08_octave
 ASSUME Thm_C08_chromatic
